@@ -168,6 +168,28 @@ func lookupNames(reg lint.Registry, k string) []string {
 	return reg.OcspResponseLints().Names()
 }
 
+// ownCopies parses every object again: the property is about goroutines linting DISTINCT parsed objects (the parsed
+// certificate caches derived data on itself), so every goroutine gets objects of its own with the same content.
+func ownCopies(objs []*Target) []*Target {
+	out := make([]*Target, len(objs))
+	for i, t := range objs {
+		cp := &Target{Kind: t.Kind, ID: t.ID, DER: t.DER}
+		switch t.Kind {
+		case "cert":
+			cp.Cert, _, _ = corpus.ParseCert(t.DER)
+		case "crl":
+			cp.CRL, _, _ = corpus.ParseCRL(t.DER)
+		default:
+			cp.OCSP, _, _ = corpus.ParseOCSP(t.DER)
+		}
+		if cp.Cert == nil && cp.CRL == nil && cp.OCSP == nil {
+			cp = t
+		}
+		out[i] = cp
+	}
+	return out
+}
+
 func (u *cUniverse) exec(c cOp, reg lint.Registry, objs []*Target) (rep cReply, made lint.Registry) {
 	switch c.Op {
 	case "Lint":
@@ -399,6 +421,7 @@ type gatedRun struct {
 	report chan gRep
 	slots  []lint.Registry
 	log    []ev.M
+	mine   [][]*Target // per goroutine: its own parsed copies of the segment's objects
 }
 
 type gatedG struct {
@@ -464,6 +487,7 @@ func (gr *gatedRun) worker(g int, wg *sync.WaitGroup) {
 	}()
 	prog := gr.seg.progs[g]
 	keys := slotKeys(gr.seg.progs)
+	mine := gr.mine[g]
 	for i, c := range prog {
 		s.i = i
 		if i > 0 {
@@ -478,7 +502,7 @@ func (gr *gatedRun) worker(g int, wg *sync.WaitGroup) {
 			}
 		}
 		gr.log = append(gr.log, opEvent("Start", g+1, i+1, c, keys))
-		rep, made := gr.u.exec(c, gr.slots[c.R], gr.seg.objs)
+		rep, made := gr.u.exec(c, gr.slots[c.R], mine)
 		if c.Op == "Filter" && made != nil {
 			gr.slots[c.Into] = made
 			gr.u.filterReply(&rep, made)
@@ -507,6 +531,7 @@ func runGated(u *cUniverse, seg *cSegment, sched []int, every bool, rng *rand.Ra
 	var wg sync.WaitGroup
 	for g := 0; g < n; g++ {
 		gr.gs = append(gr.gs, &gatedG{turn: make(chan struct{})})
+		gr.mine = append(gr.mine, ownCopies(seg.objs))
 	}
 	lint.VerifGate = gr.hook
 	defer func() { lint.VerifGate = nil }()
@@ -605,6 +630,10 @@ func runFree(u *cUniverse, seg *cSegment, nslots int, timeout time.Duration) boo
 	slots := make([]atomic.Pointer[lint.Registry], nslots+1)
 	slots[0].Store(&u.base)
 	recs := make([]freeRec, n)
+	mine := make([][]*Target, n)
+	for g := 0; g < n; g++ {
+		mine[g] = ownCopies(seg.objs) // parsed before the goroutines start: parsing is not what is under test
+	}
 	var wg sync.WaitGroup
 	start := make(chan struct{})
 	var live atomic.Int32
@@ -635,7 +664,7 @@ func runFree(u *cUniverse, seg *cSegment, nslots int, timeout time.Duration) boo
 					runtime.Gosched()
 				}
 				rec.evs = append(rec.evs, opEvent("Start", g+1, i+1, c, keys))
-				rep, made := u.exec(c, reg, seg.objs)
+				rep, made := u.exec(c, reg, mine[g])
 				if c.Op == "Filter" && made != nil {
 					slots[c.Into].Store(&made) // handed out cold: the first uses by this and by other goroutines are concurrent
 					u.filterReply(&rep, made)
